@@ -50,7 +50,7 @@ func (f *failingWriter) Write(p []byte) (int, error) {
 	return f.memConn.Write(p)
 }
 
-var boundaryNumbers = []string{"-9223372036854775808", "-1", "0", "1", "5", "6", "2147483647", "2147483648", "999999", "1000000", "100000000000000000000", "+3", "-0", "0x10", "1e3", " 7", "٣"}
+var boundaryNumbers = []string{"99999999999999999999E", "-99999999999999999999x", "18446744073709551616 ", "18446744073709551615x", "+18446744073709551616-", "-9223372036854775808", "-1", "0", "1", "5", "6", "2147483647", "2147483648", "999999", "1000000", "100000000000000000000", "+3", "-0", "0x10", "1e3", " 7", "٣"}
 
 // mutate applies one random structural or byte-level mutation to a conforming transcript.
 func mutate(c *Ctx, t []byte) ([]byte, string) {
